@@ -22,6 +22,11 @@ def run_prop(prop, groups, tier, jobs, bounds, outside=None, validate=None, only
     ev.cov["source_sha256"] = C.source_hashes(files or DRIVER_FILES)
     if only:
         jobs = [j for j in jobs if only in DP.short(j["script"])]
+    if tier == "thorough":
+        # the deeper shapes (three actions under two or three stepping commands) need minutes each
+        for j in jobs:
+            j.setdefault("budget_s", 2400)
+            j.setdefault("max_paths", 400000)
     b = dict(bounds)
     b.setdefault("numbers", NUMBERS)
     ev.cov["bounds"] = b
